@@ -314,6 +314,11 @@ NON_ASCII_REPS = [
     "\U0001f600",  # emoji (none)
     "\udc80",  # lone surrogate (none)
     "\u0085",  # NEL (\s)
+    # non-ASCII characters whose simple case mapping lands on an ASCII letter: with re.IGNORECASE an ASCII range such as [a-z] matches them
+    "\u0131",  # dotless i  (upper() == 'I')
+    "\u0130",  # I with dot above (lower() starts with 'i'; re folds it to i)
+    "\u017f",  # long s     (upper() == 'S')
+    "\u212a",  # Kelvin sign (lower() == 'k')
 ]
 
 
